@@ -181,6 +181,10 @@ def unsplit_netloc(username, password, hostname, port):
 
     hostname = hostname or ""
 
+    # NOTE: the parsed hostname of an ipv6 literal comes without its brackets
+    if ":" in hostname and not hostname.startswith("["):
+        hostname = "[" + hostname + "]"
+
     if auth:
         hostname = auth + "@" + hostname
     if port:
